@@ -195,6 +195,10 @@ class Sym:
     @staticmethod
     def _div(a, b):
         a, b = _real(a), _real(b)
+        if not _is_num(b):
+            sb = z3.simplify(b)
+            if _is_num(sb):
+                b = sb  # e.g. (lo + W) - lo: a constant after cancellation
         ctx = cur()
         if ctx is not None and ctx.recip_mode and not z3.is_rational_value(b) and not z3.is_int_value(b):
             b = canon(b)  # canonical form: commutative variants of a denominator share one application
